@@ -2,6 +2,8 @@ package rules
 
 import (
 	"go/token"
+	"go/types"
+	"sort"
 	"strings"
 
 	"kmcheck/internal/km"
@@ -22,6 +24,7 @@ func checkC11(c *km.Ctx) {
 	r.Rule("R-C11-2", "checkAuth grants the IP-certificate credential only on the helper's success; chains anchored at the role-requesting CA are never admitted as ordinary certificates", 5)
 	r.Rule("R-C11-3", "refresh: identity = authenticated name, netblocks = those extracted from the authenticated certificate; nothing request-supplied flows into either; only an IP-certificate credential is accepted", 2)
 	r.Rule("R-C11-4", "encoder and decoder agree: BitLength = ones of a 32-bit mask; ceil(BitLength/8) leading bytes copied unmodified; mask = CIDRMask(BitLength, 32); same family constant on both sides", 4)
+	r.Rule("R-C11-6", "minting: the netblocks the request parser places in the generation parameters derive from the request's requestor_netblock values and from nothing else in the request; the generator receives that field", 2)
 	r.Rule("R-C11-5", "the decoder's copy is bounded by BitLength <= 32 and by the length of the encoded bytes", 1)
 
 	// ---------- R-C11-1
@@ -145,6 +148,7 @@ func checkC11(c *km.Ctx) {
 		}
 	}
 
+	checkMintedNetblocks(c, "R-C11-6")
 	checkIPCodec(c, s, "R-C11-4")
 	checkIPv4Decoder(c, s, "R-C11-5")
 	_ = strings.Contains
@@ -457,5 +461,434 @@ func checkExtractRequiresExtension(c *km.Ctx, s *km.Sem, rule string) {
 	}
 	if n == 0 {
 		c.R.AnchorLost(rule, "success return of ExtractIPNetsFromIPRestrictedX509")
+	}
+}
+
+// ---------------------------------------------------------------------------------------------------
+// R-C11-6: minting. The netblocks placed in the generation parameters by the request parser are the
+// request's requestor_netblock values and nothing else read from the request.
+
+// formKeys collects the constant keys of the request-form reads in the backward slice of v. Loads of the
+// field named self contribute nothing (the accumulating append). env binds the parameters of a helper to
+// the arguments of the call we came through. opaque reports a parameter we could not bind.
+type formKeyWalk struct {
+	c      *km.Ctx
+	self   string
+	keys   map[string]bool
+	opaque []string
+	seen   map[ssa.Value]bool
+	steps  int
+	// a row of a local table of (form name, destination pointer, ...) descriptors: loads of the other columns
+	// of the row being iterated evaluate to this row's values
+	table *ssa.Alloc
+	row   map[int]ssa.Value
+}
+
+// resolve: a column of the bound table row -> that row's value
+func (w *formKeyWalk) resolve(v ssa.Value) ssa.Value {
+	if w.table == nil {
+		return v
+	}
+	if t, col, ok := rowColumn(v); ok && t == w.table {
+		if rv, has := w.row[col]; has {
+			return rv
+		}
+	}
+	return v
+}
+
+// rowColumn: v reads column col of an element of a local table (directly, or through the per-iteration copy).
+func rowColumn(v ssa.Value) (*ssa.Alloc, int, bool) {
+	switch x := km.Unwrap(v).(type) {
+	case *ssa.Field:
+		if t := localTableOf(x.X); t != nil {
+			return t, x.Field, true
+		}
+	case *ssa.UnOp:
+		if x.Op != token.MUL {
+			return nil, 0, false
+		}
+		fa, ok := x.X.(*ssa.FieldAddr)
+		if !ok {
+			return nil, 0, false
+		}
+		a, ok := fa.X.(*ssa.Alloc)
+		if !ok {
+			return nil, 0, false
+		}
+		var src ssa.Value
+		n := 0
+		for _, ref := range *a.Referrers() {
+			if st, ok := ref.(*ssa.Store); ok && st.Addr == ssa.Value(a) {
+				src = st.Val
+				n++
+			}
+		}
+		if n == 1 {
+			if t := localTableOf(src); t != nil {
+				return t, fa.Field, true
+			}
+		}
+	}
+	return nil, 0, false
+}
+
+// localTableOf: v is an element loaded from a local array/slice literal; returns the backing allocation.
+func localTableOf(v ssa.Value) *ssa.Alloc {
+	u, ok := km.Unwrap(v).(*ssa.UnOp)
+	if !ok || u.Op != token.MUL {
+		return nil
+	}
+	ia, ok := u.X.(*ssa.IndexAddr)
+	if !ok {
+		return nil
+	}
+	x := ia.X
+	if sl, ok := x.(*ssa.Slice); ok {
+		x = sl.X
+	}
+	a, _ := x.(*ssa.Alloc)
+	return a
+}
+
+// localTableRows: the constant-index rows of a local array literal, column index -> stored value.
+func localTableRows(t *ssa.Alloc) map[int64]map[int]ssa.Value {
+	out := map[int64]map[int]ssa.Value{}
+	for _, ref := range *t.Referrers() {
+		ia, ok := ref.(*ssa.IndexAddr)
+		if !ok {
+			continue
+		}
+		i, ok := km.ConstInt(ia.Index)
+		if !ok {
+			continue
+		}
+		for _, r2 := range *ia.Referrers() {
+			if st, ok := r2.(*ssa.Store); ok && st.Addr == ssa.Value(ia) {
+				// *(&t[i]) = *lit, lit a composite literal filled field by field
+				if u, ok := st.Val.(*ssa.UnOp); ok && u.Op == token.MUL {
+					if lit, ok := u.X.(*ssa.Alloc); ok {
+						for _, r3 := range *lit.Referrers() {
+							if fa, ok := r3.(*ssa.FieldAddr); ok {
+								for _, r4 := range *fa.Referrers() {
+									if s4, ok := r4.(*ssa.Store); ok && s4.Addr == ssa.Value(fa) {
+										if out[i] == nil {
+											out[i] = map[int]ssa.Value{}
+										}
+										out[i][fa.Field] = s4.Val
+									}
+								}
+							}
+						}
+					}
+				}
+				continue
+			}
+			fa, ok := r2.(*ssa.FieldAddr)
+			if !ok {
+				continue
+			}
+			for _, r3 := range *fa.Referrers() {
+				if st, ok := r3.(*ssa.Store); ok && st.Addr == ssa.Value(fa) {
+					if out[i] == nil {
+						out[i] = map[int]ssa.Value{}
+					}
+					out[i][fa.Field] = st.Val
+				}
+			}
+		}
+	}
+	return out
+}
+
+func (w *formKeyWalk) key(v ssa.Value, env map[*ssa.Parameter]ssa.Value) {
+	if p, ok := km.Unwrap(v).(*ssa.Parameter); ok && env != nil {
+		if a, has := env[p]; has {
+			v = a
+		}
+	}
+	v = w.resolve(v)
+	if k, ok := evalString(w.c, v, 0); ok {
+		w.keys[k] = true
+		return
+	}
+	w.opaque = append(w.opaque, "form key "+km.ValStr(v))
+}
+
+func (w *formKeyWalk) walk(v ssa.Value, env map[*ssa.Parameter]ssa.Value, depth int) {
+	if v == nil || depth > 6 {
+		return
+	}
+	v = km.Unwrap(v)
+	if w.seen[v] {
+		return
+	}
+	w.seen[v] = true
+	w.steps++
+	if w.steps > 4000 {
+		return
+	}
+	switch x := v.(type) {
+	case *ssa.Const, *ssa.Global, *ssa.Function, *ssa.Builtin, *ssa.FreeVar:
+	case *ssa.Parameter:
+		if a, has := env[x]; has && a != nil {
+			w.walk(a, nil, depth)
+		} else if x.Name() != "state" && !isRequestType(x.Type()) {
+			w.opaque = append(w.opaque, "parameter "+x.Name()+" of "+km.FuncName(x.Parent()))
+		}
+	case *ssa.Phi:
+		for _, e := range x.Edges {
+			w.walk(e, env, depth)
+		}
+	case *ssa.Extract:
+		w.walk(x.Tuple, env, depth)
+	case *ssa.Lookup:
+		if isFormMap(x.X) {
+			w.key(x.Index, env)
+			return
+		}
+		w.walk(x.X, env, depth)
+	case *ssa.Index:
+		w.walk(x.X, env, depth)
+	case *ssa.IndexAddr:
+		w.walk(x.X, env, depth)
+	case *ssa.Slice:
+		w.walk(x.X, env, depth)
+	case *ssa.Convert:
+		w.walk(x.X, env, depth)
+	case *ssa.BinOp:
+		w.walk(x.X, env, depth)
+		w.walk(x.Y, env, depth)
+	case *ssa.Next:
+		w.walk(x.Iter, env, depth)
+	case *ssa.Range:
+		w.walk(x.X, env, depth)
+	case *ssa.FieldAddr:
+		if fieldNameOf(x) == w.self {
+			return
+		}
+		w.walk(x.X, env, depth)
+	case *ssa.Field:
+		if rv := w.resolve(x); rv != ssa.Value(x) {
+			w.walk(rv, env, depth)
+			return
+		}
+		w.walk(x.X, env, depth)
+	case *ssa.UnOp:
+		if rv := w.resolve(x); rv != ssa.Value(x) {
+			w.walk(rv, env, depth)
+			return
+		}
+		if x.Op != token.MUL {
+			w.walk(x.X, env, depth)
+			return
+		}
+		switch a := x.X.(type) {
+		case *ssa.FieldAddr:
+			if fieldNameOf(a) == w.self {
+				return
+			}
+			if isFormMapField(a) {
+				w.opaque = append(w.opaque, "whole form "+km.ValStr(a))
+				return
+			}
+			w.walk(a.X, env, depth)
+		default:
+			w.walk(x.X, env, depth)
+		}
+	case *ssa.Alloc:
+		for _, ref := range *x.Referrers() {
+			switch st := ref.(type) {
+			case *ssa.Store:
+				if st.Addr == ssa.Value(x) {
+					w.walk(st.Val, env, depth)
+				}
+			case *ssa.IndexAddr:
+				for _, r2 := range *st.Referrers() {
+					if s2, ok := r2.(*ssa.Store); ok && s2.Addr == ssa.Value(st) {
+						w.walk(s2.Val, env, depth)
+					}
+				}
+			case *ssa.FieldAddr:
+				if fieldNameOf(st) == w.self {
+					continue
+				}
+				for _, r2 := range *st.Referrers() {
+					if s2, ok := r2.(*ssa.Store); ok && s2.Addr == ssa.Value(st) {
+						w.walk(s2.Val, env, depth)
+					}
+				}
+			}
+		}
+	case *ssa.Call:
+		cc := x.Common()
+		if b, ok := cc.Value.(*ssa.Builtin); ok {
+			_ = b
+			for _, a := range cc.Args {
+				w.walk(a, env, depth)
+			}
+			return
+		}
+		switch km.CalleeFull(cc) {
+		case "(net/url.Values).Get", "(*net/http.Request).FormValue", "(*net/http.Request).PostFormValue":
+			w.key(km.CallArgs(cc)[1], env)
+			return
+		}
+		if cc.IsInvoke() && len(cc.Args) == 1 {
+			switch cc.Method.Name() {
+			case "FormValue", "PostFormValue", "Get":
+				w.key(cc.Args[0], env)
+				return
+			}
+		}
+		callee := km.StaticCallee(cc)
+		args := km.CallArgs(cc)
+		if callee != nil && w.c.InModule(callee) && len(callee.Blocks) > 0 {
+			env2 := map[*ssa.Parameter]ssa.Value{}
+			for i, p := range callee.Params {
+				if i < len(cc.Args) {
+					a := cc.Args[i]
+					if ap, isP := km.Unwrap(a).(*ssa.Parameter); isP && env != nil {
+						if b, has := env[ap]; has {
+							a = b
+						}
+					}
+					env2[p] = w.resolve(a)
+				}
+			}
+			for _, b := range callee.Blocks {
+				if ret, ok := b.Instrs[len(b.Instrs)-1].(*ssa.Return); ok {
+					for _, rv := range ret.Results {
+						if isErrorType(rv.Type()) {
+							continue
+						}
+						w.walk(rv, env2, depth+1)
+					}
+				}
+			}
+			return
+		}
+		for _, a := range args {
+			w.walk(a, env, depth)
+		}
+	}
+}
+
+func isRequestType(t types.Type) bool {
+	return km.NamedTypeOf(t) == "net/http.Request"
+}
+
+// isFormMap: the map indexed is r.PostForm / r.Form (a url.Values).
+func isFormMap(v ssa.Value) bool {
+	v = km.Unwrap(v)
+	if km.NamedTypeOf(v.Type()) == "net/url.Values" {
+		return true
+	}
+	if u, ok := v.(*ssa.UnOp); ok && u.Op == token.MUL {
+		if fa, ok := u.X.(*ssa.FieldAddr); ok {
+			return isFormMapField(fa)
+		}
+	}
+	return false
+}
+
+func isFormMapField(fa *ssa.FieldAddr) bool {
+	n := fieldNameOf(fa)
+	return (n == "PostForm" || n == "Form") && isRequestType(fa.X.Type())
+}
+
+func checkMintedNetblocks(c *km.Ctx, rule string) {
+	r := c.R
+	typ := KMD + ".roleRequestingCertGenParams"
+	refresh := c.P.Func("cmd/keymasterd", "(*RuntimeState).parseRefreshRoleCertGenParams")
+	n := 0
+	judge := func(fn *ssa.Function, st *ssa.Store, w *formKeyWalk) {
+		var ks []string
+		for k := range w.keys {
+			ks = append(ks, k)
+		}
+		sort.Strings(ks)
+		got := "form values " + strings.Join(ks, ", ")
+		if len(w.opaque) > 0 {
+			sort.Strings(w.opaque)
+			got += "; untraced: " + strings.Join(w.opaque, "; ")
+		}
+		ok := len(ks) == 1 && ks[0] == "requestor_netblock" && len(w.opaque) == 0
+		r.Add(rule, km.FuncName(fn), "minted netblocks", posOf(c, st), "derived from the request's requestor_netblock values only", clipS(got, 240), ok)
+	}
+	for _, fn := range c.P.AllFuncs {
+		if !c.InModule(fn) || fn == refresh {
+			continue
+		}
+		for _, st := range storesByField(fn, typ)["RequestorNetblocks"] {
+			n++
+			w := &formKeyWalk{c: c, self: "RequestorNetblocks", keys: map[string]bool{}, seen: map[ssa.Value]bool{}}
+			w.walk(st.Val, nil, 0)
+			judge(fn, st, w)
+		}
+	}
+	// the same through a local table of (form name, destination) rows: *row.dest = parse(row.name)
+	for _, fn := range c.P.AllFuncs {
+		if !c.InModule(fn) || fn == refresh {
+			continue
+		}
+		km.Instrs(fn, func(in ssa.Instruction) {
+			st, ok := in.(*ssa.Store)
+			if !ok {
+				return
+			}
+			t, col, ok := rowColumn(st.Addr)
+			if !ok {
+				return
+			}
+			var idx []int64
+			rows := localTableRows(t)
+			for i := range rows {
+				idx = append(idx, i)
+			}
+			sort.Slice(idx, func(a, b int) bool { return idx[a] < idx[b] })
+			for _, i := range idx {
+				dst, ok := rows[i][col].(*ssa.FieldAddr)
+				if !ok || fieldNameOf(dst) != "RequestorNetblocks" || km.NamedTypeOf(dst.X.Type()) != typ {
+					continue
+				}
+				n++
+				w := &formKeyWalk{c: c, self: "RequestorNetblocks", keys: map[string]bool{}, seen: map[ssa.Value]bool{}, table: t, row: rows[i]}
+				w.walk(st.Val, nil, 0)
+				judge(fn, st, w)
+			}
+		})
+	}
+	if n == 0 {
+		r.AnchorLost(rule, "RequestorNetblocks store of the minting request parser")
+	}
+	// the generator is handed that field (and, inside, the encoder consumes that parameter)
+	for _, fn := range c.P.AllFuncs {
+		if fn.Pkg == nil || !pkgIsKMD(fn.Pkg) {
+			continue
+		}
+		for _, ci := range km.CallsIn(fn) {
+			if km.CalleeFull(ci.Common()) != certgenPkg+".GenIPRestrictedX509Cert" {
+				continue
+			}
+			a := km.CallArgs(ci.Common())
+			ok := len(a) > 4 && a[4] != nil && mentionsField(a[4], "RequestorNetblocks") && km.NamedTypeOf(a[4].Type()) == ""
+			if ok {
+				u, isU := km.Unwrap(a[4]).(*ssa.UnOp)
+				fa, isF := (ssa.Value)(nil), false
+				if isU {
+					_, isF = u.X.(*ssa.FieldAddr)
+				}
+				_ = fa
+				if _, isFld := km.Unwrap(a[4]).(*ssa.Field); !isF && !isFld {
+					ok = false
+				}
+			}
+			got := "<none>"
+			if len(a) > 4 && a[4] != nil {
+				got = km.ValStr(a[4])
+			}
+			r.Add(rule, km.FuncName(fn), "netblocks handed to the generator", posOf(c, ci), "the parameters' RequestorNetblocks, as parsed", clipS(got, 160), ok)
+		}
 	}
 }
